@@ -257,7 +257,7 @@ func init() {
 func C19(tier string) int {
 	start := time.Now()
 	LoadFindings()
-	seeds := []string{"inline", "twolevel", "nested", "overflow", "freeruns"}
+	seeds := []string{"inline", "twolevel", "nested", "overflow", "freeruns", "bigkeys"}
 	sizes := []int{1024}
 	if tier == "thorough" {
 		seeds = append(seeds, "leaf", "threelevel")
